@@ -96,7 +96,7 @@ def words(a):
 CHO = {"ㄱ": [0, 1, 15], "ㄴ": [2], "ㄷ": [3, 4, 16], "ㄹ": [5], "ㅁ": [6], "ㅂ": [7, 8, 17], "ㅅ": [9, 10], "ㅇ": [11], "ㅈ": [12, 13, 14], "ㅎ": [18]}
 COMPAT = {"ㄱ": "ㄱㄲㅋ", "ㄴ": "ㄴ", "ㄷ": "ㄷㄸㅌ", "ㄹ": "ㄹ", "ㅁ": "ㅁ", "ㅂ": "ㅂㅃㅍ", "ㅅ": "ㅅㅆ", "ㅇ": "ㅇ", "ㅈ": "ㅈㅉㅊ", "ㅎ": "ㅎ"}
 CLUSTER = {"ㄱㅅ": "ㄳ", "ㄴㅈ": "ㄵ", "ㄹㄱ": "ㄺ", "ㄹㅁ": "ㄻ", "ㄹㅂ": "ㄼ", "ㄹㅅ": "ㄽ", "ㄹㄷ": "ㄾ", "ㅂㅅ": "ㅄ", "ㄴㅎ": "ㄶ", "ㄹㅎ": "ㅀ"}
-SEPS = [" ", "  ", "\n", ", ", ".", " - ", "!", "a", " 1 ", "\t", "(", ") ", "é", "😀"]
+SEPS = [" ", "  ", "\n", ", ", ".", " - ", "!", "a", " 1 ", "\t", "(", ") ", "é", "😀", "ộ", "ǖ", "ệ́"]      # the last ones: ONE character, several separators after NFD
 def spell_letter(R, c):
     k = R.random()
     if k < .30: return R.choice(COMPAT[c])
@@ -107,10 +107,14 @@ def spell_letter(R, c):
     return chr(syl)
 def spell(R, ws):
     out = []
+    skip_first = False
     for i, w in enumerate(ws):
-        if i:
+        if skip_first: w = w[1:]; skip_first = False       # its leading ㅎ was written by the previous word's cluster letter
+        elif i:
             if w[0] in "ㅇㅎ" and R.random() < .5: pass                        # implicit separator
             else: out.append(R.choice(SEPS))
+        if w == "ㅇ" and i + 1 < len(ws) and ws[i + 1][0] == "ㅎ" and R.random() < .5:
+            out.append("\ua977"); skip_first = True; continue                 # U+A977 (archaic ㅇㅎ cluster): one letter, TWO words - "ㅇ" and the start of "ㅎ..."
         j = 0
         while j < len(w):
             pair = w[j:j + 2]
